@@ -10,8 +10,11 @@ from props.C01 import ASSUMPTIONS as A01, TRUSTED as T01
 PE = "amr_kitchen.pestle.pestle."
 ASSUMPTIONS = A01 + ["floating-point sums are treated as an uninterpreted reduction SUM over (index set, values): only "
                      "congruence is used (the statement says 'to floating-point accuracy')",
-                     "covering-mask construction (occupancy map arithmetic) and the level loop are covered by the bounded "
-                     "run-time layer only (R)"]
+                     "covering mask of a box, occupancy-map painting loop and map resolution are under contract with the map "
+                     "resolution g as a skeleton parameter (quick: 2,4,8; thorough: 2,4,6,8,16,32) - box bounds, map size and "
+                     "contents, number of boxes unbounded; g is assumed even (AMReX blocking factors) and to divide the box bounds "
+                     "(established by the map-resolution task on a 2-level skeleton; np.gcd.reduce by its contract 'divides every "
+                     "entry'); the level loop of volume_integral and the sum over boxes are covered by the bounded run-time layer"]
 TRUSTED = T01 + ["numpy: boolean-mask selection a[mask] and np.sum as a reduction over the selected cells",
                  "pool.imap ordered (assumed)"]
 
@@ -64,10 +67,16 @@ class SumWorker(Task):
 
 
 def tasks(tier):
-    return [SumWorker(m, v) for m in (True, False) for v in (False, True)]
+    from props.pestle_parents import parent_tasks
+    return [SumWorker(m, v) for m in (True, False) for v in (False, True)] + parent_tasks(tier)
 
 
 def canaries(tier):
+    from props.pestle_parents import parent_canaries
+    return parent_canaries() + _worker_canaries()
+
+
+def _worker_canaries():
     f = "amr_kitchen/pestle/pestle.py"
     return [("masked worker: volFrac multiplied outside the mask",
              [(f, 'return args["dV"] * np.sum(data[args["covering_mask"]] *  data_volfrag[args["covering_mask"]])',
